@@ -49,6 +49,8 @@ def run(ctx):
         ctx.guard("chunk-stability" + tag, c18.chunk_stability, ctx, crate, crs, tag)
         # a result that arrives late is expanded like one that arrives early: the dependencies consumer is total (no early return
         # that depends on what other tasks have already reported) - shared with C01 / C11
+        import core
+        ctx.guard("core" + tag, core.soundness, ctx, crate, crs, tag)      # see rules/core.py
         import c11
         ctx.guard("queued-in-consumer" + tag, c11.queued_in_consumer, ctx, crate, crs, tag)
 
